@@ -4,6 +4,15 @@
   A case is inside the *exact-dyadic domain* (every IEEE-754 double operation
   of the implementation is exact, so float result = rational result) iff the
   reported `bits ≤ 53`.
+
+  `TR` is NOT a ring (the history of `a - a` is not that of `0`), while the
+  theorems are over `[CommRing R]`.  The tie is the value component: `+ - * 0`
+  act componentwise on `.v` (`TR.v_hom`), and every model function the driver
+  runs at `TR` commutes with the projection `TR.v : TR → Rat`
+  (PyndlProofs/ScalarBridge.lean: `rwLearn_v`, `dictNdl_v`, `kernelRowEvent_v`,
+  `ndlCall_v`, the Widrow–Hoff row steps, `activationMatrix_v`, `chainRunD_v`):
+  what the driver prints (`toStr` prints `.v`) is what the same definition
+  computes over `ℚ`.
 -/
 namespace Pyndl
 
